@@ -4,6 +4,7 @@ import (
 	"bytes"
 	"crypto"
 	"fmt"
+	"math/big"
 	"strings"
 	"testing"
 
@@ -307,6 +308,60 @@ func checkEnvelopeInner(c envCase, r *h.Rec) error {
 	}
 	if len(v.recips) != len(c.Recips) {
 		return fmt.Errorf("%d recipient infos for %d recipients: %s", len(v.recips), len(c.Recips), desc())
+	}
+	// the recipient infos have the form the API documents: recipients named by
+	// subjectKeyIdentifier (EnvelopeMessageCFCA, cfca.EnvelopeMessage; version 2) or
+	// by issuer and serial number (all others); the wrapped key of an SM2 recipient
+	// as bare C1||C2||C3 without the 0x04 prefix (EncryptCFCA,
+	// cfca.EnvelopeMessageLegacy) or as the ASN.1 SM2 ciphertext (all others)
+	legacy := c.API == "EncryptCFCA" || c.API == "cfca.EnvelopeMessageLegacy"
+	for i, ri := range v.recips {
+		f := ri.children
+		if !ri.is(0x30) || len(f) != 4 || !f[0].is(0x02) || !f[2].is(0x30) || !f[3].is(0x04) {
+			return fmt.Errorf("recipient info %d is not SEQUENCE{version, identifier, algorithm, encryptedKey}: %s", i, desc())
+		}
+		var who *ident
+		for _, n := range c.Recips {
+			cert := id(n).cert
+			if skiAPI && f[1].is(0x80) && bytes.Equal(f[1].content, cert.SubjectKeyId) {
+				who = id(n)
+			}
+			if !skiAPI && f[1].is(0x30) && len(f[1].children) == 2 && bytes.Equal(f[1].children[0].der(), cert.RawIssuer) &&
+				new(big.Int).SetBytes(f[1].children[1].content).Cmp(cert.SerialNumber) == 0 {
+				who = id(n)
+			}
+		}
+		if who == nil {
+			return fmt.Errorf("recipient info %d does not name a recipient by %s: %s", i,
+				map[bool]string{true: "subjectKeyIdentifier", false: "issuer and serial number"}[skiAPI], desc())
+		}
+		ver := 1 // GB/T 35275
+		switch {
+		case c.API == "Encrypt" || c.API == "Session":
+			ver = 0
+		case skiAPI:
+			ver = 2
+		}
+		if len(f[0].content) != 1 || int(f[0].content[0]) != ver {
+			return fmt.Errorf("recipient info %d has version %x, want %d: %s", i, f[0].content, ver, desc())
+		}
+		ek := f[3].content
+		switch {
+		case who.kind == "rsa":
+			if len(ek) != 128 {
+				return fmt.Errorf("recipient info %d: RSA-1024 wrapped key has %d bytes: %s", i, len(ek), desc())
+			}
+		case legacy:
+			if len(ek) != 96+ci.c.KeySize() {
+				return fmt.Errorf("recipient info %d: legacy wrapped key is not bare C1||C2||C3 (%d bytes, want %d): %s", i, len(ek), 96+ci.c.KeySize(), desc())
+			}
+		default:
+			n, err := parseAll(ek)
+			if err != nil || !n.is(0x30) || len(n.children) != 4 || !n.children[0].is(0x02) || !n.children[1].is(0x02) ||
+				!n.children[2].is(0x04) || len(n.children[2].content) != 32 || !n.children[3].is(0x04) || len(n.children[3].content) != ci.c.KeySize() {
+				return fmt.Errorf("recipient info %d: wrapped key is not the ASN.1 SM2 ciphertext SEQUENCE{x, y, hash, ciphertext}: %x: %s", i, ek, desc())
+			}
+		}
 	}
 	ct, err := octets(v.encNode)
 	if err != nil {
